@@ -138,7 +138,9 @@ def metric_dir(metric, sc):
 def real_scores(case):
     from vf.framework import real_repo
     sa = real_repo()
-    return sa.Scores(B.fl(case["pos"]), B.fl(case["neg"]), nb_easy_pos=case["ep"], nb_easy_neg=case["en"],
+    import numpy as np
+    dt = int if case.get("int") else float
+    return sa.Scores(np.asarray(case["pos"], dtype=dt), np.asarray(case["neg"], dtype=dt), nb_easy_pos=case["ep"], nb_easy_neg=case["en"],
                      score_class=case["sc"], equal_class=case["ec"])
 
 
